@@ -6,7 +6,7 @@ import warnings
 import numpy as np
 from hypothesis import strategies as st
 
-from .. import common, gen as G, loopsem as L, expr as X
+from .. import common, gen as G, loopsem as L, expr as X, loopvmap as LV
 from ..common import Violation
 from . import c01
 from ._base import standard_run, standard_worker
@@ -38,7 +38,7 @@ def c09_case(draw, tier="quick", k=0):
         # n-ary scalar operations with >=3 aligned operands (third positional argument of a ufunc is out=)
         base = draw(G.call_case(ops=G.ELEMENTWISE_NARY, quick=True, simple=True, min_inputs=3))
     else:
-        base = draw(G.stratified_case(k, quick=(tier == "quick"), simple=draw(st.booleans())))
+        base = draw(G.stratified_case(k, quick=(tier == "quick"), simple=draw(st.booleans()), backends=G.BACKENDS + [LV.NAME]))
     layouts = [draw(st.sampled_from(LAYOUTS)) for _ in base["ins"]]
     for i, d in enumerate(base["data"]):
         if d["kind"] == "coord" and layouts[i] == "broadcast":
@@ -140,6 +140,7 @@ def evaluate(rc, stats):
     stats.count("mode:" + mode)
     stats.count("family:" + G.family_of(op))
 
+    LV.ensure(base)
     before = [snapshot(x, o) for x, o in zip(passed, owners)]
     sbefore = {k: size_snapshot(v) for k, v in sizes.items()}
     obefore = {k: size_snapshot(v) for k, v in opts.items()}
